@@ -41,6 +41,17 @@ def _export_channels(obj, tmp, tag):
     obj.export(p)  # and once more onto its own previous export
     with open(p, "rb") as fh:
         chans["path-again"] = fh.read()
+    # ... and onto an export of the same size with the same footer but other cells (another structure of the same
+    # geometry and count was exported there before): "nothing changed" cannot be read off size and footer
+    decoy = bytearray(chans["bytes"])
+    if len(decoy) > 24:
+        decoy[0] ^= 0xFF
+        decoy[len(decoy) // 3] ^= 0x55
+        with open(p, "wb") as fh:
+            fh.write(bytes(decoy))
+        obj.export(p)
+        with open(p, "rb") as fh:
+            chans["path-over-same-footer"] = fh.read()
     p2 = os.path.join(tmp, tag + ".b")
     with open(p2, "wb") as fh:
         obj.export(fh)
@@ -334,6 +345,9 @@ def _case_ondisk_body(rng, tmp, obj, est, fpr, relative):
     desc = f"BloomFilterOnDisk(est={est}, fpr={fpr}) after {len(members)} adds" + (", opened by a relative name and used from another working directory" if relative else "")
     probs = []
     out = os.path.join(tmp, "od.copy")
+    img = bytes(obj)
+    with open(out, "wb") as fh:  # the destination already holds an export with the same size and footer, other bits
+        fh.write(bytes(len(img) - 20) + img[-20:])
     res = core.call(obj.export, out)
     if res[0] == "err":
         probs.append(f"export raised {res[1]}")
